@@ -281,6 +281,15 @@ def run(ctx):
             else:
                 # incommensurable: every rejecting operator
                 right = Q(pools.magnitude(rng), other_dimension_unit(left.unit))
+                if rng.random() < 0.1:
+                    # magnitudes that are not numbers at all: dimensional analysis comes first (no Decimal NaN signal,
+                    # no silent False from a float nan, no infinity shortcut)
+                    special = rng.choice([Decimal("NaN"), float("nan"), float("inf"), Decimal("-Infinity"), Decimal("sNaN")])
+                    if rng.random() < 0.5:
+                        left = Q(special, left.unit)
+                    else:
+                        right = Q(special, right.unit)
+                    ctx.count("incommensurable_cases_with_nan_or_infinite_magnitudes")
                 opname = rng.choice(["add", "sub", "lt", "le", "gt", "ge", "in_unit", "eq", "ne"])
                 ctx.count(f"cells/incommensurable/{opname}")
                 ctx.distinct(("incommensurable", opname, lk, pools.shape_class(lf)))
